@@ -495,6 +495,11 @@ class Translator:
                 if a is None:
                     return b
                 return P("%s ∧ %s" % (a.p(), b.p()))
+            # (opt-in `slim_rets`: the returning leaves are emitted as a chain tested in this order, so when the then-branch returns on
+            #  every path its leaves' conditions exhaust `c` and the leaves of the else-branch need not repeat `¬c` - keeps long
+            #  else-if ladders linear)
+            if self.spec.get("slim_rets") and not self.has(t[2], "fall"):
+                return self.rets(t[2], conj(pc, c)) + self.rets(t[3], pc)
             return self.rets(t[2], conj(pc, c)) + self.rets(t[3], conj(pc, self.neg(c)))
         return []
 
